@@ -246,6 +246,35 @@ pub mod q {
 
 #[cfg(feature = "c03_t")]
 pub mod t {
+    /// From an arbitrary valid representation state with a three-word upper-bits vector (efstate.rs).
+    pub mod state {
+        use crate::ef_grid::log2_tab;
+        use crate::efstate::*;
+        use sux::prelude::*;
+
+        /// `get(i)` and the first two items of `iter_from(i)`, for a symbolic `i`.
+        #[kani::proof]
+        #[kani::unwind(70)]
+        #[kani::stub(f64::log2, log2_tab)]
+        pub fn get_iter_from_any_state() {
+            let (ef, high) = any_state();
+            let i: usize = kani::any();
+            kani::assume(i < N);
+            let xi = x_at(&high, i);
+            assert_eq!(ef.get(i), xi);
+            let mut it = ef.iter_from(i);
+            assert_eq!(it.len(), N - i);
+            assert_eq!(it.next(), Some(xi));
+            if i + 1 < N {
+                let xj = x_at(&high, i + 1);
+                assert_eq!(it.next(), Some(xj));
+                kani::cover!(xj - xi >= 64, "an all-zero word of upper bits between two consecutive elements");
+            }
+            kani::cover!(i == 0 && xi >= 64, "first element in a later word");
+            std::mem::forget(ef);
+        }
+    }
+
     use crate::ef_grid_t;
     ef_grid_t!(ef_c03);
 }
